@@ -77,6 +77,19 @@ func c19LoadPair(glove, cmd string) (summary string) {
 		_ = idx.SemanticScores(make([]float32, idx.Dimension))
 	}
 	_ = idx.EmbedQuery("find files")
+	// the same command file read into an index that expects whatever dimension the file names (an
+	// index value made by the program: the zero value, or one with a small dimension)
+	if data, err := os.ReadFile(cmd); err == nil && len(data) >= 8 {
+		if d := binary.LittleEndian.Uint32(data[4:8]); d <= 4 {
+			own := &embedding.Index{Dimension: int(d)}
+			if err := own.LoadCommandEmbeddings(cmd); err != nil {
+				summary += " own-dim=err"
+			} else {
+				summary += fmt.Sprintf(" own-dim=%d", own.NumCommands())
+				_ = own.SemanticScores(make([]float32, own.Dimension))
+			}
+		}
+	}
 	return summary
 }
 
@@ -134,7 +147,7 @@ func c19Glove(t *rapid.T) c19File {
 }
 
 func c19Cmd(t *rapid.T) c19File {
-	kind := rapid.SampledFrom([]string{"valid", "valid", "huge-count", "huge-count", "wrong-dim", "truncated", "raw", "missing-rows"}).Draw(t, "cmd-kind")
+	kind := rapid.SampledFrom([]string{"valid", "valid", "huge-count", "huge-count", "wrong-dim", "truncated", "raw", "missing-rows", "small-dim"}).Draw(t, "cmd-kind")
 	n := rapid.IntRange(0, 4).Draw(t, "n-cmds")
 	var body bytes.Buffer
 	for i := 0; i < n; i++ {
@@ -147,6 +160,11 @@ func c19Cmd(t *rapid.T) c19File {
 	case "huge-count":
 		c := rapid.SampledFrom([]uint32{1 << 31, 0xFFFFFFFF, 3000000000, 1 << 27}).Draw(t, "count")
 		return c19File{kind, append(hdr(c, 100), body.Bytes()...), -1}
+	case "small-dim":
+		// dimensions 0..4 with a count that is honest, a little too big, or huge
+		d := rapid.SampledFrom([]uint32{0, 0, 1, 2, 4}).Draw(t, "small-dim")
+		c := rapid.SampledFrom([]uint32{0, 1, 3, 20000000, 1 << 28, 1 << 31, 0xFFFFFFFF}).Draw(t, "small-dim-count")
+		return c19File{kind, append(hdr(c, d), rapid.SliceOfN(rapid.Byte(), 0, 64).Draw(t, "small-dim-body")...), -1}
 	case "wrong-dim":
 		return c19File{kind, append(hdr(uint32(n), rapid.SampledFrom([]uint32{0, 1, 99, 101, 0xFFFFFFFF}).Draw(t, "dim")), body.Bytes()...), -1}
 	case "truncated":
